@@ -566,8 +566,11 @@ pub(crate) async fn get_one_term(
 
     // fetch the range from blob store and deserialize the chunks
     // then put into the cache if used
+    // the flight is identified by what is downloaded: the url AND the byte range requested from it (several fetch
+    // infos of one xorb may share a url and differ only in url_range)
+    let flight_key = format!("{}#{}-{}", fetch_term.url, fetch_term.url_range.start, fetch_term.url_range.end);
     let (mut data, chunk_byte_indices) = range_download_single_flight
-        .work_dump_caller_info(&fetch_term.url, download_range(http_client, fetch_term.clone(), term.hash))
+        .work_dump_caller_info(&flight_key, download_range(http_client, fetch_term.clone(), term.hash))
         .await?;
 
     #[cfg(xet_verif)]
